@@ -201,7 +201,7 @@ def run(ctx):
                 finally:
                     os.chdir(old)
             text = open(out, encoding="utf-8").read()
-            labels = p.resolver.get_all_labels()
+            labels = impl.labels_of(p.resolver)
             s2.cases += 1
             s2.nontrivial.add(len(labels))
             m_ = drv.ask(["symfile " + (";".join(f"{k.encode().hex()}={v}" for k, v in labels) or "-")])[0]
